@@ -73,6 +73,9 @@ let () =
   try
     while true do
       let line = input_line stdin in
+      (* the real code panicked while the harness computed the table: nothing to model, the
+         harness reports the violation itself *)
+      if String.length line >= 10 && String.sub line 0 10 = "tablepanic" then print_endline line else begin
       let parts = String.split_on_char ';' line in
       let head, entries = match parts with h :: t -> h, t | [] -> "", [] in
       let kind, nn, npairs = match String.split_on_char ' ' head with
@@ -98,6 +101,25 @@ let () =
       let ksub (k : nat) (kk : nat) (gens : nat list list) : n list =
         let key = Printf.sprintf "K%d:%d:%s" (int_of_nat k) (int_of_nat kk) (gens_string gens) in
         List.map n_of_int (ints (find key)) in
+      (* correspondence of the model of the k-subset orbit loop with its parameters instantiated
+         by the models of CombinationsColex / Rank / Sort (Search/OrderlyInstKsubModel.v: ksub_real,
+         proved a transversal in Search/OrderlyInstKsub.v): on every generator list of the table
+         the extracted loop must return exactly the masks the real loop returned, in order.  Which
+         representative is kept is not fixed by the property, so this goes to the strict part. *)
+      let ksub_loop_verdict () : string =
+        let bad = ref "" and cnt = ref 0 in
+        Hashtbl.iter (fun key v ->
+            if !bad = "" && String.length key > 0 && key.[0] = 'K' then begin
+              match String.split_on_char ':' (String.sub key 1 (String.length key - 1)) with
+              | [k; kk; g] ->
+                let gens = List.map (fun s -> List.map nat_of_int (ints s)) (split_list '/' g) in
+                incr cnt;
+                (match ksub_real (nat_of_int (int_of_string k)) (nat_of_int (int_of_string kk)) gens with
+                 | Some r -> if join_ints (List.map int_of_n r) <> v then bad := "MISMATCH:" ^ key
+                 | None -> bad := "model-panic:" ^ key)
+              | _ -> ()
+            end) tbl;
+        if !bad = "" then Printf.sprintf "ksubloop:ok(%d)" !cnt else "ksubloop:" ^ !bad in
       (* which clause of the per-graph check fails on g ("" = none) *)
       let clause_of (g : vgraph) : string =
         match get_aut canon g false N0 with
@@ -133,7 +155,7 @@ let () =
              end
            done
          with Missing key -> verdict := "model-missing:" ^ key);
-        print_endline (Printf.sprintf "spec k=%d pairs=%d | spec:%s" nn npairs !verdict)
+        print_endline (Printf.sprintf "spec k=%d pairs=%d | spec:%s ## %s" nn npairs !verdict (ksub_loop_verdict ()))
       end else begin
       let pj = Buffer.create 4096 and st = Buffer.create 4096 in
       Buffer.add_string pj (Printf.sprintf "cosim n=%d" nn);
@@ -189,7 +211,8 @@ let () =
               Buffer.add_string pj (Printf.sprintf " | %d/%s/%s:" m p pl);
               if !bad <> "" then Buffer.add_string pj !bad
               else Buffer.add_string pj (join_ints (List.sort compare !ids))) pred_places) moduli;
-      print_endline (Buffer.contents pj ^ " ##" ^ Buffer.contents st)
+      print_endline (Buffer.contents pj ^ " ## " ^ ksub_loop_verdict () ^ Buffer.contents st)
+      end
       end
     done
   with End_of_file -> ()
